@@ -71,11 +71,13 @@ func (bm *BucketMeta) Size() int64 {
 // ReadBucketMeta returns bucketMeta at given file path name.
 func ReadBucketMeta(name string) (bucketMeta *BucketMeta, err error) {
 	var off int64
-	fd, err := os.OpenFile(name, os.O_CREATE|os.O_RDWR, 0644)
-	defer fd.Close()
+	// Reading must not create the file: an empty meta file left behind by a
+	// read of a bucket that was never written makes the next Open fail.
+	fd, err := os.OpenFile(name, os.O_RDONLY, 0644)
 	if err != nil {
 		return
 	}
+	defer fd.Close()
 
 	buf := make([]byte, BucketMetaHeaderSize)
 	_, err = fd.ReadAt(buf, off)
